@@ -22,13 +22,13 @@ cleanup() { git -C /repo worktree remove --force "$WT" 2>/dev/null; rm -rf "$WT"
 trap cleanup EXIT
 mkdir -p "$WT/tests" && cp "$DEMO" "$WT/tests/"
 NAME=${PFX}_${ID}_$K
-( cd "$WT" && cargo test --offline --test $NAME 2>&1 | grep "test result" | head -1 ) > /tmp/sc_clean.txt
-CLEAN=$(grep -c "test result: ok" /tmp/sc_clean.txt)
+( cd "$WT" && cargo test --offline --test $NAME 2>&1 | grep "test result" | head -1 ) > /tmp/sc_clean_$$.txt
+CLEAN=$(grep -c "test result: ok" /tmp/sc_clean_$$.txt)
 ( cd "$WT" && git apply "$PATCH" ) || { echo "patch does not apply"; exit 2; }
-( cd "$WT" && cargo test --offline --lib 2>&1 | grep "test result" | head -1 ) > /tmp/sc_suite.txt
-SUITE=$(grep -c "82 passed; 0 failed" /tmp/sc_suite.txt)
-( cd "$WT" && cargo test --offline --test $NAME 2>&1 | grep "test result" | head -1 ) > /tmp/sc_demo.txt
-DEMOFAIL=$(grep -c "FAILED" /tmp/sc_demo.txt)
+( cd "$WT" && cargo test --offline --lib 2>&1 | grep "test result" | head -1 ) > /tmp/sc_suite_$$.txt
+SUITE=$(grep -c "82 passed; 0 failed" /tmp/sc_suite_$$.txt)
+( cd "$WT" && cargo test --offline --test $NAME 2>&1 | grep "test result" | head -1 ) > /tmp/sc_demo_$$.txt
+DEMOFAIL=$(grep -c "FAILED" /tmp/sc_demo_$$.txt)
 rm -rf "$WT/tests/$NAME.rs"
 EVD=$(mktemp -d /tmp/sc_ev_XXXXXX)
 cd "$(dirname "$0")/.." && VERIF_MILA="$WT" VERIF_EVIDENCE_DIR="$EVD" ./check "$ID" --tier "$TIER" > "$EVD/log" 2>&1
@@ -50,5 +50,5 @@ old.update({"property":ID,"seed":int(K),"suite_passes_with_patch":SUITE=="1","de
  "ran":["cargo test --offline --lib (patched worktree)","cargo test --offline --test <demo> (clean and patched)","VERIF_MILA=<patched worktree> ./check %s --tier %s"%(ID,TIER)]})
 json.dump(old,open(out,"w"),indent=1)
 PY
-rm -rf "$EVD"
+rm -rf "$EVD" /tmp/sc_clean_$$.txt /tmp/sc_suite_$$.txt /tmp/sc_demo_$$.txt /tmp/sc_demo_$$
 exit 0
